@@ -393,3 +393,8 @@ mod tests {
         assert_eq!(MIN_SIZE, chunk.len());
     }
 }
+
+// verification hook (guard: cfg(kani), set only by the Kani compiler): harnesses live in /verif/kani
+#[cfg(kani)]
+#[path = "/verif/kani/rabin.rs"]
+mod verif_kani;
